@@ -44,11 +44,11 @@ fn main() {
             let barrier = barrier.clone();
             hs.push(std::thread::spawn(move || {
                 let mut rng = Rng::new(seed ^ (t as u64 * 7919 + fi as u64));
-                // a body that runs now would produce a DIFFERENT value: wrong values are visible too
-                rt::NEXT_TL.with(|n| n.set(Some(rt::Next { n: 999_000 + t as u64, ok: true, len: 100_000, ci: true, io: false })));
                 barrier.wait();
                 for _ in 0..rounds {
                     let j = rng.below(nk as u64) as usize;
+                    // the body is a deterministic function of the arguments: a re-execution returns the same value
+                    rt::NEXT_TL.with(|n| n.set(Some(rt::Next { n: 7 + j as u64, ok: true, len: 100_000, ci: true, io: false })));
                     let (_, r) = corpus::CALLS[fi](j);
                     if r != expect[j] {
                         WRONG.fetch_add(1, Ordering::SeqCst);
